@@ -853,3 +853,133 @@ def readers_family(run, replay):
                      assumptions=["a crash or a hang is re-run alone before being believed", "encoding/xml and encoding/json are not modelled: "
                                   "for PhyloXML and Nextstrain only crash/hang/usability are judged",
                                   "after 4 crashes or hangs in a shard the remaining inputs of that shard are not run"])
+
+
+# ------------------------------------------------------------------------------------------------
+# C11: worker pools
+
+POOL_CFG = """SPECIFICATION Spec
+CONSTANTS
+  W = %d
+  N = %d
+  ErrAt = %d
+  Kind = "%s"
+  DoneOnError = %s
+  Shared = %s
+  CapIn = 2
+  CapOut = 1
+  Emit = %s
+INVARIANTS ResultsSeq ErrorSurfaces EmitSchedule
+PROPERTY CallerTerminates
+CHECK_DEADLOCK FALSE
+"""
+
+POOL_TRACE_CFG = "SPECIFICATION Spec\nPOSTCONDITION Accepted\nCHECK_DEADLOCK FALSE\n"
+
+
+@pipeline("C11")
+def pool_family(run, replay):
+    import models
+    run.build_harness()
+    if replay:
+        with open(replay) as f:
+            hdr = json.loads(f.readline())
+        run.replay_of = replay
+        p = os.path.join(run.work, "replay.ndjson")
+        if "model_case" in hdr:
+            cp = os.path.join(run.work, "cases-replay.ndjson")
+            with open(cp, "w") as f:
+                f.write(json.dumps(hdr["model_case"]) + "\n")
+            vk.run_driver(run, ["pool-replay", "--prop", "C11", "--cases", cp, "--out", p], p)
+        else:
+            parts = hdr.get("case", "").split("-")
+            seed, k = int(parts[1][1:]), int(parts[2][1:])
+            run.build_harness(race=True)
+            env = dict(os.environ, GORACE="log_path=%s halt_on_error=0" % os.path.join(run.work, "race-replay"))
+            vk.run_driver(run, ["pool", "--seed", str(seed), "--from", str(k), "--to", str(k + 1), "--out", p], p, race=True, env=env)
+        r = vk.validate_trace(run, p, "TracePool.tla", POOL_TRACE_CFG)
+        collect(run, [r])
+        run.traces = 1
+        return vk.finish(run, rule="replay of one recorded case on the current /repo")
+    # 1. the model: every interleaving of the bound; schedules emitted for the small configurations
+    emit_cfgs, check_cfgs = [], []
+    for kind in ("compare", "fbp"):
+        for errat in (0, 1, 2):
+            emit_cfgs.append((2, 2, errat, kind))
+        check_cfgs.append((1, 2, 1, kind))
+        check_cfgs.append((3, 2, 2, kind))       # more workers than trees
+        check_cfgs.append((2, 3, 2, kind))
+        if run.tier == "thorough":
+            check_cfgs += [(2, 3, 0, kind), (2, 3, 3, kind), (3, 3, 1, kind), (2, 4, 3, kind)]
+    if run.tier == "thorough":
+        emit_cfgs += [(2, 3, 2, "compare"), (3, 2, 1, "fbp")]
+    outs = []
+
+    def mjob(cfg, emit):
+        def f():
+            w, n, e, kind = cfg
+            return vk.run_model(run, "WorkerPool-%s-%d-%d-%d" % (kind, w, n, e), "WorkerPool.tla",
+                                POOL_CFG % (w, n, e, kind, "TRUE", "FALSE", "TRUE" if emit else "FALSE"), workers=4, heap="6g")
+        return f
+    outs = vk.parallel([mjob(c, True) for c in emit_cfgs] + [mjob(c, False) for c in check_cfgs], nproc=4)
+    # the two defects this property had in the code (040c220, 855db0c), as model variants: TLC must refute them
+    refuted = {}
+    o = vk.run_model(run, "WorkerPool-fbp-nodone", "WorkerPool.tla", POOL_CFG % (2, 2, 1, "fbp", "FALSE", "FALSE", "FALSE"), workers=4, heap="4g", expect_ok=False)
+    refuted["worker returns without wg.Done on an erroneous tree => caller never terminates"] = ("violated" in o)
+    o = vk.run_model(run, "WorkerPool-compare-shared", "WorkerPool.tla", POOL_CFG % (2, 2, 0, "compare", "TRUE", "TRUE", "FALSE"), workers=4, heap="4g", expect_ok=False)
+    refuted["per-tree structure shared by the workers => records differ from the single-threaded run"] = ("violated" in o)
+    run.extra["defect_variants_refuted_by_tlc"] = refuted
+    if not all(refuted.values()):
+        raise vk.Infra("the worker pool model did not refute a defective variant (vacuous model)")
+    cases_path, n = models.emit_cases(run, "C11", outs[:len(emit_cfgs)])
+    if run.tier == "quick" and n > 2400:
+        # a seed-dependent sample of the schedules
+        import random
+        rnd = random.Random(run.seed)
+        lines = open(cases_path).read().splitlines()
+        keep = sorted(rnd.sample(range(len(lines)), 2400))
+        with open(cases_path, "w") as f:
+            for i in keep:
+                f.write(lines[i] + "\n")
+        n = 2400
+    run.extra["schedules_forced_on_real_goroutines"] = n
+    res = models.replay_cases(run, "C11", cases_path, n, "pool-replay", "TracePool.tla", POOL_TRACE_CFG, per_shard=150)
+    run.extra["schedules_not_realizable"] = sum(r["summary"].get("unrealizable", 0) for r in res)
+    # 2. free runs under the race detector
+    run.build_harness(race=True)
+    ncases = 640 if run.tier == "quick" else 16000
+    shards = vk.NCPU
+    per = math.ceil(ncases / shards)
+
+    def job(i):
+        def f():
+            path = os.path.join(run.work, "pool-%d.ndjson" % i)
+            env = dict(os.environ, GORACE="log_path=%s halt_on_error=0" % os.path.join(run.work, "race-%d" % i))
+            s = vk.run_driver(run, ["pool", "--seed", str(run.seed), "--from", str(i * per), "--to", str(min(ncases, (i + 1) * per)), "--out", path],
+                              path, race=True, env=env, timeout=3000, allow_fail=True)
+            if s.get("_rc") not in (0, 66):
+                raise vk.Infra("pool driver failed rc=%s: %s" % (s.get("_rc"), s.get("_stderr", "")[-2000:]))
+            r = vk.validate_trace(run, path, "TracePool.tla", POOL_TRACE_CFG)
+            r["summary"] = s
+            return r
+        return f
+    res = vk.parallel([job(i) for i in range(shards)])
+    collect(run, res)
+    run.traces += sum(r["summary"].get("events", 0) for r in res)
+    run.extra["free_runs_under_race_detector"] = ncases
+    run.extra["race_reports_with_gotree_frames"] = sum(r["summary"].get("races", 0) for r in res)
+    run.samples += vk.sample_events(res[0]["path"], 1)
+    return vk.finish(run,
+                     rule="model: WorkerPool.tla (PlusCal): reader, W workers, closer and caller over two channels, every interleaving for "
+                          "the bounds (W in 1..3, 2-4 trees, an erroneous tree at every position, more workers than trees); properties: the "
+                          "caller terminates (liveness under weak fairness), the collected records are those of the single-threaded run, an "
+                          "erroneous tree reaches the caller; the two defects the code had are kept as model variants that TLC must refute. "
+                          "real code: every complete behaviour of the small configurations is forced on the real goroutines through the gate "
+                          "hooks (tree received, structures built, structures used, record sent, wg.Done) for Compare, CompareWeighted and FBP; "
+                          "free runs with 1,2,3,4,16 and more-threads-than-trees on random collections incl. erroneous / other-taxa trees "
+                          "under the Go race detector for the four pipelines; TLC judges termination, records = single-threaded records, "
+                          "error surfaced, no data race report with a gotree frame",
+                     assumptions=["the race detector is the sensor for unsynchronised accesses the model does not name", "a forced schedule that "
+                                  "the real goroutines cannot follow (the code no longer has the gates in the modelled order) is a DRIFT note; "
+                                  "the run then continues freely and is still judged",
+                                  "TBE has no per-worker gate (its workers are anonymous closures): free runs only"])
